@@ -336,9 +336,9 @@ pub struct AntiOpts {
 }
 
 pub fn antichain_spaces(tier: &str, o: AntiOpts) -> Vec<Space> {
-    let dev = if tier == "thorough" { 2 } else { 1 };
     let specs = irregular_specs(tier);
     let count = specs.len();
+    let small: Vec<Spec> = specs.iter().filter(|s| s.n <= 9).cloned().collect();
     let cfgs = move |s: &Spec| {
         let a = max_antichain(s.n, &s.user_edges());
         let w = a.iter().filter(|x| **x).count();
@@ -385,12 +385,16 @@ pub fn antichain_spaces(tier: &str, o: AntiOpts) -> Vec<Space> {
         }
         c
     };
-    vec![space(
-        &format!("{count} irregular graphs (two-depth fans, combs, trees, fan-in/out mixes, arithmetic DAGs on 7..16 nodes), base schedule that keeps a maximum antichain in flight / held, <= {dev} deviation(s)"),
+    let mut v = vec![space(
+        &format!("{count} irregular graphs (two-depth fans, combs, trees, fan-in/out mixes, arithmetic DAGs on 7..16 nodes), base schedule that keeps a maximum antichain in flight / held, <= 1 deviation"),
         specs,
-        Some(dev),
-        cfgs,
-    )]
+        Some(1),
+        cfgs.clone(),
+    )];
+    if tier == "thorough" {
+        v.push(space(&format!("the {} of those graphs with at most 9 functions, <= 2 deviations", small.len()), small, Some(2), cfgs));
+    }
+    v
 }
 
 /// Large irregular graphs (arithmetic family on 70 and 100 nodes: many rank-skipping edges, more
@@ -456,6 +460,65 @@ pub fn n5_space(tier: &str, extra_limits: &[Option<usize>]) -> Vec<Space> {
         }
         c
     })]
+}
+
+/// Wide and irregular graphs with the interrupt armed: the single allowed deviation is the
+/// moment at which the signal is sent.
+pub fn wide_interrupt_spaces(tier: &str, streams: bool) -> Vec<Space> {
+    let thorough = tier == "thorough";
+    let ks: &[usize] = if thorough { &[5, 9, 16, 17, 32, 33, 40, 65] } else { &[9, 33] };
+    let mut specs = vec![];
+    for &k in ks {
+        let fams: &[Family] = if thorough { &[Family::Antichain, Family::FanOut, Family::FanPair, Family::Comb, Family::BinTree, Family::Chain] } else { &[Family::Antichain, Family::FanPair, Family::Comb, Family::BinTree] };
+        for &f in fams {
+            let s = family_spec(f, k);
+            let n = s.n;
+            let mut r = s.clone();
+            for e in r.edges.iter_mut() {
+                e.0 = n - 1 - e.0;
+                e.1 = n - 1 - e.1;
+            }
+            specs.push(s);
+            specs.push(r);
+        }
+    }
+    specs.extend(crate::props_build::arithmetic_specs(if thorough { &[10, 20, 36] } else { &[10, 36] }, false).into_iter().map(|(_, s)| s).step_by(if thorough { 2 } else { 5 }));
+    let count = specs.len();
+    vec![space(
+        &format!("{count} wide / irregular graphs (k in {ks:?}, arithmetic DAGs on 10..36 nodes) with the interrupt armed, 3 base schedules, signal sent at any one point"),
+        specs,
+        Some(1),
+        move |s: &Spec| {
+            let mut c = vec![];
+            for api in [Api { kind: Kind::ForEach, mutable: false, with: true }, Api { kind: Kind::Fold, mutable: false, with: true }, Api { kind: Kind::TryForEach, mutable: true, with: true }] {
+                for (strat, include) in [(Strat::Finish, true), (Strat::NextN(2), false)] {
+                    for base in [Base::Eager, Base::Batch, Base::EagerHigh] {
+                        if !api.concurrent() && base != Base::Eager {
+                            continue;
+                        }
+                        let mut r = RunCfg::plain(api, s.n);
+                        r.base = base;
+                        r.strat = strat;
+                        r.include = include;
+                        r.interrupt = true;
+                        r.imm_choice = false;
+                        r.limit = if base == Base::Batch { Some(3) } else { None };
+                        c.push(JobCfg::S(r));
+                    }
+                }
+            }
+            if streams {
+                for base in [CBase::Eager, CBase::HoldThenDropAll] {
+                    let mut cc = CCfg::plain(SApi::StreamWithInterruptible);
+                    cc.base = base;
+                    cc.strat = Strat::NextN(2);
+                    cc.interrupt = true;
+                    c.push(JobCfg::C(cc));
+                }
+            }
+            c
+        },
+    )]
 }
 
 pub fn conc_with() -> Vec<Api> {
@@ -591,7 +654,7 @@ pub fn c01(tier: &str) -> (Vec<Space>, Focus) {
 
 fn gen_opts(tier: &str) -> GenOpts {
     if tier == "thorough" {
-        GenOpts { n_plain: 4, n_int: 4, n_fail: 4, n_stream: 5, limits: vec![None, Some(1), Some(2)], strats: STRATS_FULL.to_vec(), include_n0: true }
+        GenOpts { n_plain: 4, n_int: 4, n_fail: 4, n_stream: 4, limits: vec![None, Some(1), Some(2)], strats: STRATS_FULL.to_vec(), include_n0: true }
     } else {
         GenOpts { n_plain: 4, n_int: 3, n_fail: 3, n_stream: 4, limits: vec![None, Some(1), Some(2)], strats: STRATS_FULL.to_vec(), include_n0: true }
     }
@@ -760,6 +823,9 @@ pub fn c09(tier: &str) -> (Vec<Space>, Focus) {
     let mut o = gen_opts(tier);
     o.n_stream = 0;
     let mut v = general_spaces(&o);
+    v.extend(wide_spaces(tier, false, true));
+    v.extend(antichain_spaces(tier, AntiOpts { futures: true, streams: false, limits: vec![None, Some(2)], limit_below_width: false, fail_antichain: true }));
+    v.extend(wide_interrupt_spaces(tier, false));
     v.extend(n5_space(tier, &[]));
     let focus = Focus {
         props: vec![9],
@@ -975,6 +1041,7 @@ pub fn c08(tier: &str) -> (Vec<Space>, Focus) {
     v.push(space("graphs with declarations n=3 T=1, interrupt at every point", decl_specs(3, 1), None, |s| {
         cfgs_interrupt(s.n, &conc_with(), &[None], &FWD, &STRATS_LIGHT)
     }));
+    v.extend(wide_interrupt_spaces(tier, true));
     v.push(space("StreamOpts builder methods called in every order (interrupt armed), shapes 1<=n<=3", shapes_upto(1, 3, false), None, |s| {
         cfgs_opts_orders(s.n, &Api::all_with(), &[None, Some(1)], true)
     }));
